@@ -36,6 +36,9 @@ pub struct Round {
 }
 #[derive(Clone, Debug, Serialize, Deserialize)]
 pub struct LeafWork {
+    /// static mode only: an edit is notified (and received by the reloader) *before* enhance_hot_reloading is called
+    #[serde(default)]
+    pub edit_before_switch: Option<usize>,
     pub static_mode: bool,
     pub nkeys: usize,
     pub preload: Vec<usize>,
@@ -59,6 +62,11 @@ impl Property for C05 {
     }
     fn generate(&self, g: &mut SplitMix, k: &mut SplitMix, _tier: Tier) -> (Knobs, Value) {
         let knobs = Knobs::draw(k);
+        if g.chance(3, 5) {
+            let mut w = crate::graph::generate(g, &crate::graph::GenOpts { helpers: false, single_entry_rounds: false, max_rounds: 4 });
+            w.report_gained = true;
+            return (knobs, serde_json::json!({"mode": "graph", "w": w}));
+        }
         let nkeys = 1 + g.below(3) as usize;
         let rounds = (0..1 + g.below(4))
             .map(|_| Round {
@@ -82,22 +90,32 @@ impl Property for C05 {
                 },
             })
             .collect();
-        let w = LeafWork { static_mode: g.chance(1, 3), nkeys, preload: (0..nkeys).filter(|_| g.chance(4, 5)).collect(), rounds };
+        let w = LeafWork { edit_before_switch: if g.chance(1, 2) { Some(g.below(nkeys as u64) as usize) } else { None }, static_mode: g.chance(1, 3), nkeys, preload: (0..nkeys).filter(|_| g.chance(4, 5)).collect(), rounds };
         (knobs, serde_json::json!({"mode": "leaf", "w": w}))
     }
     fn execute(&self, case: &Case) -> Outcome {
         let shape = fnv(case.work.to_string().as_bytes());
         let cfg = case.knobs.to_config(case.seed, case.tape.clone());
         reset_run();
-        let w: LeafWork = serde_json::from_value(case.work["w"].clone()).unwrap();
-        let r = detsim::run(cfg, move || leaf_scenario(w));
+        let r = if case.work["mode"] == "graph" {
+            let w: crate::graph::GWork = serde_json::from_value(case.work["w"].clone()).unwrap();
+            detsim::run(cfg, move || crate::graph::scenario(w))
+        } else {
+            let w: LeafWork = serde_json::from_value(case.work["w"].clone()).unwrap();
+            detsim::run(cfg, move || leaf_scenario(w))
+        };
         let nontrivial = r.counters.get("reach.reload_after_notified_edit").copied().unwrap_or(0) > 0;
         outcome_from(r, nontrivial, shape, |f| match f {
             detsim::Failure::Assertion(r, m) if r == "C05/stale-after-barrier" && m.contains("[plain]") => "C05/plain-barrier/stale".to_string(),
+            detsim::Failure::Assertion(r, _) if r == "graph/gained-dependency-refreshed-in-same-pass" => "C05/gained-dependency-refreshed-in-same-pass".to_string(),
             f => f.rule(),
         })
     }
     fn shrink(&self, work: &Value) -> Vec<Value> {
+        if work["mode"] == "graph" {
+            let w: crate::graph::GWork = serde_json::from_value(work["w"].clone()).unwrap();
+            return crate::graph::shrink(&w).into_iter().map(|x| serde_json::json!({"mode": "graph", "w": x})).collect();
+        }
         let w: LeafWork = serde_json::from_value(work["w"].clone()).unwrap();
         let mut out = vec![];
         for r in 0..w.rounds.len() {
@@ -144,11 +162,28 @@ fn leaf_scenario(w: LeafWork) {
         let h = cache.load::<LA>(&format!("k{k}")).expect("preload");
         cached.insert(k, (String::from_utf8(h.read().0.bytes.clone()).unwrap(), 0));
     }
-    if w.static_mode {
-        cache.enhance_hot_reloading();
-        detsim::quiesce();
-    }
     let mut ver = 0u64;
+    if w.static_mode {
+        if let Some(k) = w.edit_before_switch.filter(|k| cached.contains_key(k)) {
+            // the change is queued by the reloader in local mode; switching to static mode must not lose it
+            ver += 1;
+            let c = format!("v{ver}-{k}-preswitch");
+            src.tree(|t| t.put(&format!("k{k}"), "a", c.as_bytes()));
+            file.insert(k, Some(c.clone()));
+            src.notify(file_entry(&format!("k{k}"), "a"));
+            detsim::quiesce();
+            cache.enhance_hot_reloading();
+            detsim::quiesce();
+            let h = cache.get_cached::<LA>(&format!("k{k}")).unwrap();
+            let now = String::from_utf8(h.read().0.bytes.clone()).unwrap();
+            detsim::check(now == c, "C05/stale-after-barrier", || format!("[static] k{k} reads {now:?} at quiescence after enhance_hot_reloading; its change to {c:?} was notified before the switch"));
+            cached.insert(k, (c, crate::props::c18::rid_num(h.last_reload_id()) as u64));
+            detsim::count("reach.reload_after_notified_edit");
+        } else {
+            cache.enhance_hot_reloading();
+            detsim::quiesce();
+        }
+    }
     for (ri, round) in w.rounds.iter().enumerate() {
         // edits are made after the loads returned; each produces its notification set
         let mut notes = vec![];
